@@ -4,8 +4,11 @@ PLAN = {
     "thorough": [replays("C20"), tape("C20", 15000, size=700)],
     "class_floors": {"executed": 0.5, "ode": 0.12, "U:subset-of-S": 0.1, "special:voi": 0.02, "special:non-primary": 0.04, "special:duplicate": 0.04, "special:foreign": 0.04,
                      "marked:state": 0.08, "marked:nla_unknown": 0.04, "marked:algebraic": 0.05, "marked:computed_constant": 0.1, "marked:constant": 0.2, "dep-on:external": 0.1, "dep-on:algebraic": 0.02,
-                     "stale-order": 0.1, "declared-dep-on-unmarked-state": 0.1, "state-based-only-through-declared-dependency(feeds-a-rate)": 0.04,
-                     "stale-order+state-based-only-through-declared-dependency": 0.04},
+                     "stale-order": 0.1, "declared-dep-on-unmarked-state": 0.1, "state-based-only-through-declared-dependency(feeds-a-rate)": 0.025,
+                     "stale-order+state-based-only-through-declared-dependency": 0.02,
+                     "shape-marked:initial-value-chain": 0.03, "shape-marked:nla-parameter": 0.02, "shape-marked:rate-read": 0.005,
+                     "stale-order+rate-needs-consumer-of-external-without-state-dependence": 0.01, "dependency-declared-on-second-object-of-class": 0.01,
+                     "nla-system-pruned-of-an-external-unknown": 0.02, "constant-initialised-by-external": 0.015},
 }
 CLAIM = {
     "engine": "rapidcheck-tape",
